@@ -35,6 +35,8 @@ def gen_cases(rng, tier: str) -> list[dict]:
             exprs.append(("planted", gen.wrap_random(g, bad, 1)))
             exprs += [("hidden", h) for h in c02.hiding_parents(g, bad)[:6]]
     for origin, e in exprs:
+        if wire.size(e) > 150:
+            continue            # thirteen routes, most of them simplifying: very large inputs belong to C01-C05, C08
         vs = common.names_of(e)
         prior = None
         for p in common.points_for(rng, e, 2, extra=0.3):
